@@ -491,7 +491,11 @@ def st_reformat_case(draw, allow_dict=True):
     cur_cols = [dict(c) for c in visible_cols(a)]
     cur_limits = a["limits"]
     for _ in range(draw(st.integers(1, 3))):
-        kind = draw(st.sampled_from(["fmt", "fmt", "remove", "print", "rewidth"]))
+        kind = draw(st.sampled_from(["fmt", "fmt", "remove", "print", "rewidth", "limits"]))
+        if kind == "limits":
+            cur_limits = [draw(st.integers(0, 4)), draw(st.integers(0, 4))]
+            steps.append(["limits", list(cur_limits)])
+            continue
         if kind == "rewidth":
             # the same columns in the same order, fixed widths; printed; then the widths exchanged among the columns
             # (the total width of the table stays the same)
